@@ -18,6 +18,16 @@ def dispatch (op : String) (args : List String) : Option String :=
       let F ← fromHex h
       let m := mk lz F (← ms.toNat?) (← hl.toNat?) (← sz.toNat?)
       pure (match m.readData F (← st.toNat?) (← ln.toNat?) with | some b => toHex b | none => "err")
+  -- a history of reads on one object, all results held: the model is stateless (every read is a function of the box
+  -- and the file), so each sub-request is answered on its own
+  | "md.hist", [lz, ms, hl, sz, rs, h] => do
+      let F ← fromHex h
+      let m := mk lz F (← ms.toNat?) (← hl.toNat?) (← sz.toNat?)
+      let l ← (rs.splitOn ",").mapM fun p =>
+        match p.splitOn ":" with
+        | [a, b, _] => do pure ((← a.toNat?), (← b.toNat?))
+        | _ => none
+      pure (",".intercalate (l.map fun (st, ln) => match m.readData F st ln with | some b => toHex b | none => "err"))
   | "md.enc", [lz, ms, hl, sz, h] => do
       let F ← fromHex h
       let m := mk lz F (← ms.toNat?) (← hl.toNat?) (← sz.toNat?)
